@@ -83,6 +83,10 @@ pub enum Op {
     /// 0 = truncated after every byte, 1 = n-th element decode fails, 2 = reader error at every byte,
     /// 3 = every bit flipped (every `stride`-th bit for long streams)
     DecodeSweep { r: u8, fmt: Fmt, kind: u8 },
+    /// one operation (kind: 0 convert with form `a`, 1 drop, 2 set field `a`, 3 unpack, 4 chain with
+    /// forms from `a`) during which the destructor of the n-th token destroyed panics. If the
+    /// destructor fires the history ends there and only "nothing is destroyed twice" is judged.
+    DropPanic { n: u8, kind: u8, r: u8, a: u8 },
 }
 
 impl Op {
@@ -106,6 +110,7 @@ impl Op {
             Op::CloneSweep { from: false, .. } => "clone",
             Op::CloneSweep { from: true, .. } => "clone_from",
             Op::DecodeSweep { .. } => "decode",
+            Op::DropPanic { .. } => "drop_panic",
         }
     }
 }
@@ -250,6 +255,8 @@ struct Engine<'a, R: Rec> {
     /// a model-dependent oracle fired at an earlier step
     tainted: bool,
     tainted_next: bool,
+    /// an injected destructor panic fired: the history stops, leaks are not judged
+    halted: bool,
 }
 
 fn prop_of_last(last: &str) -> &'static str {
@@ -1559,6 +1566,39 @@ impl<'a, R: Rec> Engine<'a, R> {
         self.verify_all(&[]);
     }
 
+    /// A destructor that panics in the middle of an operation: whatever the generated code does about
+    /// the values it has not destroyed yet (the pristine code leaks them, which is safe), no value
+    /// may be destroyed twice, neither by the unwinding nor when the surviving records are dropped.
+    fn do_drop_panic(&mut self, n: u8, kind: u8, r: u8, a: u8) {
+        tok::plan_drop_panic(n.max(1) as usize);
+        let res = catch_unwind(AssertUnwindSafe(|| match kind % 5 {
+            0 => self.do_convert(r, a % 4),
+            1 => self.do_drop(r),
+            2 => self.do_set(r, a),
+            3 => self.do_unpack(r),
+            _ => self.do_chain(r, (a as u32).wrapping_mul(0x0101_0101)),
+        }));
+        tok::plan_drop_panic(0);
+        match res {
+            Ok(()) => self.probe("drop_panic_not_reached"),
+            Err(p) => match p.downcast_ref::<tok::InjectedPanic>() {
+                Some(ip) if ip.what == "drop" => {
+                    alloc::harness(|| drop(p));
+                    self.fault("drop_panic");
+                    self.probe(match kind % 5 {
+                        0 => "drop_panic_in_convert",
+                        1 => "drop_panic_in_drop",
+                        2 => "drop_panic_in_set",
+                        3 => "drop_panic_in_unpack",
+                        _ => "drop_panic_in_chain",
+                    });
+                    self.halted = true;
+                }
+                _ => std::panic::resume_unwind(p),
+            },
+        }
+    }
+
     fn do_drop_index(&mut self, i: usize) {
         let Live { slot, model } = self.world.remove(i);
         drop(slot);
@@ -1613,6 +1653,12 @@ impl<'a, R: Rec> Engine<'a, R> {
                     extra = &["C15"];
                     self.do_decode_sweep(*r, *fmt, *kind)
                 }
+                Op::DropPanic { n, kind, r, a } => self.do_drop_panic(*n, *kind, *r, *a),
+            }
+            if self.halted {
+                self.out.steps += 1;
+                fold(&mut self.out.hash, 0xd709 + ledger::anomaly_count() as u64);
+                break;
             }
             self.conservation(extra);
             self.drain_hooks();
@@ -1666,6 +1712,7 @@ pub fn run_history<R: Rec>(ops: &[Op], cfg: &RunCfg) -> Outcome {
             addr_scratch: alloc::harness(|| Vec::with_capacity(64)),
             tainted: false,
             tainted_next: false,
+            halted: false,
         };
         // the `RecordN` aliases ("optimized capacity") must be the record types at the published capacity
         if R::CAP == R::meta().max_size {
@@ -1675,17 +1722,40 @@ pub fn run_history<R: Rec>(ops: &[Op], cfg: &RunCfg) -> Outcome {
             }
         }
         e.run(ops);
+        let halt_step = e.step;
         // end of life of everything: every instance destroyed exactly once, heap back to baseline
         e.step = ops.len();
         e.op_name = "end-of-history";
-        let clean = e.out.violations.is_empty();
+        let clean = e.out.violations.is_empty() && !e.halted;
+        if e.halted {
+            // after a destructor panic the model no longer says which values are alive (the code may
+            // have leaked some): the surviving records are dropped as they are
+            let judged = e.out.violations.is_empty();
+            let world = std::mem::replace(&mut e.world, alloc::harness(Vec::new));
+            for l in world {
+                let Live { slot, model } = l;
+                drop(slot);
+                alloc::harness(|| drop(model));
+            }
+            if judged && ledger::anomaly_count() != 0 {
+                let m = format!("after a destructor panicked during {}: {:?}", ops.get(halt_step).map(|o| alloc::harness(|| format!("{:?}", o))).unwrap_or_default(), ledger::anomalies());
+                let step = halt_step;
+                alloc::harness(|| {
+                    e.out.violations.push(Violation { property: "C06".into(), clause: "C06/destroyed-twice-after-destructor-panic".into(), message: m, step, op: "drop_panic".into() });
+                });
+            }
+            #[cfg(truc_verif_hooks)]
+            alloc::harness(|| drop(truc_runtime::verif::take_anomalies()));
+        }
         while !e.world.is_empty() {
             e.do_drop_index(0);
         }
         if clean {
             e.conservation(&[]);
         }
-        e.drain_hooks();
+        if !e.halted {
+            e.drain_hooks();
+        }
         #[cfg(truc_verif_hooks)]
         {
             // the hook's counters are cumulative per thread: report what this history added
@@ -1854,6 +1924,19 @@ pub fn gen_ops(rng: &mut Rng, focus: Focus, faults: bool) -> Vec<Op> {
         };
         ops.push(op);
     }
+    // fault kind "destructor panics": one operation of the history runs with a one-shot panic planted in
+    // the n-th token destructor (drawn last, so that the rest of the history is what it was without it)
+    if faults && matches!(focus, Focus::C05 | Focus::C06 | Focus::C07 | Focus::All) && rng.chance(1, 5) {
+        let pos = rng.range(1, ops.len());
+        let kind = [0, 0, 0, 0, 1, 1, 2, 2, 3, 4, 4][rng.below(11)] as u8;
+        let n = if rng.chance(1, 2) { rng.range(1, 3) } else { rng.range(1, 10) } as u8;
+        let op = Op::DropPanic { n, kind, r: rng.below(8) as u8, a: rng.below(16) as u8 };
+        if pos >= ops.len() {
+            ops.push(op);
+        } else {
+            ops[pos] = op;
+        }
+    }
     ops
 }
 
@@ -1960,6 +2043,26 @@ pub fn gen_tour(meta: &DefMeta, faults: bool, light: bool, focus: Focus) -> Vec<
     if nv > 1 && wants(&[Focus::C05]) {
         for forms in [0u32, 0x5555_5555, 0xaaaa_aaaa, 0xffff_ffff, 0x1b1b_1b1b] {
             tours.push(vec![Op::New { v: 0, uninit: false, place: 0, via_from: false }, Op::Chain { r: 0, forms }, Op::Get { r: 0, stack: false }]);
+        }
+    }
+    // a destructor panics at every position of every conversion form, of dropping and of unpacking
+    if faults && !light {
+        for v in 0..nv {
+            let v8 = v as u8;
+            let nf = (meta.variants[v].fields.len() as u8).min(12);
+            let new = Op::New { v: v8, uninit: false, place: 0, via_from: false };
+            for n in 1..=nf.max(1) {
+                if v + 1 < nv {
+                    for form in 0..4u8 {
+                        tours.push(vec![new.clone(), Op::DropPanic { n, kind: 0, r: 0, a: form }]);
+                    }
+                }
+                tours.push(vec![new.clone(), Op::DropPanic { n, kind: 1, r: 0, a: 0 }]);
+                tours.push(vec![new.clone(), Op::DropPanic { n, kind: 3, r: 0, a: 0 }]);
+            }
+            for f in 0..nf {
+                tours.push(vec![new.clone(), Op::DropPanic { n: 1, kind: 2, r: 0, a: f }, Op::Get { r: 0, stack: false }]);
+            }
         }
     }
     tours
